@@ -25,34 +25,44 @@ def IdsDistinct (s : St V) : Prop := (s.vals.map (·.1)).Nodup
 /-- **refinement**: a successful mutation acts on the state exactly as on a key-value map -/
 theorem refines_map (s : St V) (hd : IdsDistinct s) (id : Bytes) (op : Op V) (cbs : List (Cb V)) (s' : St V)
     (h : exec s id op = (.ok, cbs, s')) : absMap s' = mapApply (absMap s) id op ∧ IdsDistinct s' := by
-  sorry
+  cases op <;> simp only [exec] at h <;> (repeat' split at h) <;>
+    simp only [Prod.mk.injEq, reduceCtorEq, false_and, true_and] at h
+  all_goals obtain ⟨_, rfl⟩ := h
+  · exact ⟨funext fun k => by simp [absMap, mapApply, vget_vset], nodup_vset _ _ _ hd⟩
+  · exact ⟨funext fun k => by simp [absMap, mapApply, vget_vset], nodup_vset _ _ _ hd⟩
+  · exact ⟨funext fun k => by simp [absMap, mapApply, vget_vdel], nodup_vdel _ _ hd⟩
 
 /-- **error contract**: Create on an existing id fails with duplicate and on an empty id fails
 unless the store generates ids; Update/Delete/Value on a missing id fail with not-found; a
 wrong type or a veto fails; every failure leaves the state unchanged and runs no callback -/
 theorem error_contract (s : St V) (id : Bytes) (op : Op V) (e : Err) (cbs : List (Cb V)) (s' : St V)
     (h : exec s id op = (.err e, cbs, s')) : s' = s ∧ cbs = [] := by
-  sorry
+  cases op <;> simp only [exec] at h <;> (repeat' split at h) <;>
+    simp only [Prod.mk.injEq, reduceCtorEq, false_and] at h <;>
+    exact ⟨h.2.2.symm, h.2.1.symm⟩
 
 theorem create_existing (s : St V) (id : Bytes) (v w : V) (hne : id ≠ []) (h : vget s.vals id = some w) :
     (exec s id (.create v true)).1 = .err .duplicate := by
-  sorry
+  simp [exec, h, hne]
 
 theorem create_empty_id (s : St V) (v : V) (hg : s.generatesIds = false) :
     (exec s [] (.create v true)).1 = .err .noId := by
-  sorry
+  simp [exec, hg]
 
 theorem missing_is_not_found (s : St V) (id : Bytes) (v : V) (h : vget s.vals id = none) :
     (exec s id (.update v true)).1 = .err .notFound ∧ (exec s id .delete).1 = .err .notFound ∧
     (exec s id .value).1 = .err .notFound ∧ (exec s id .exists_).1 = .bool false := by
-  sorry
+  simp [exec, h]
 
 /-- **exactly one callback per successful mutation**, with the id, the value immediately before
 and the value immediately after -/
 theorem callback_exact (s : St V) (id : Bytes) (op : Op V) (cbs : List (Cb V)) (s' : St V)
     (h : exec s id op = (.ok, cbs, s')) :
     ∃ cb, cbs = [cb] ∧ cb.id = id ∧ cb.before = vget s.vals id ∧ cb.after = vget s'.vals id := by
-  sorry
+  cases op <;> simp only [exec] at h <;> (repeat' split at h) <;>
+    simp only [Prod.mk.injEq, reduceCtorEq, false_and, true_and] at h
+  all_goals obtain ⟨rfl, rfl⟩ := h
+  all_goals simp_all [vget_vset, vget_vdel]
 
 /-- **callback chain**: over any history, the callbacks of one id form a chain — each one's
 `before` is the previous one's `after` (the first one's `before` is the initial value) -/
@@ -62,13 +72,33 @@ def chainFrom (id : Bytes) : Option V → List (Cb V) → Prop
 
 theorem callback_chain (s : St V) (hd : IdsDistinct s) (hist : List (Bytes × Op V)) (id : Bytes) :
     chainFrom id (vget s.vals id) (run s hist).1 := by
-  sorry
+  have _h := hd; clear _h hd  -- (distinct ids are not needed for this property)
+  induction hist generalizing s with
+  | nil => simp [run, chainFrom]
+  | cons x rest ih =>
+    obtain ⟨id0, op⟩ := x
+    simp only [run]
+    have ih' := ih (exec s id0 op).2.2
+    rcases exec_cases s id0 op with ⟨h1, h2⟩ | ⟨a, h1, h2⟩
+    · rw [h2] at ih'
+      rw [h1, h2]
+      simpa using ih'
+    · rw [h1]
+      simp only [List.singleton_append, chainFrom]
+      rw [h2 id] at ih'
+      by_cases hid : id0 = id
+      · subst hid; simpa using ih'
+      · have : ¬ id = id0 := fun e => hid e.symm
+        simpa [hid, this] using ih'
 
 /-- **reads see the transaction's own writes** -/
 theorem reads_own_writes (s : St V) (hd : IdsDistinct s) (id : Bytes) (v : V) (cbs : List (Cb V)) (s' : St V) :
     (exec s id (.create v true) = (.ok, cbs, s') → (exec s' id .value).1 = .val v ∧ (exec s' id .exists_).1 = .bool true) ∧
     (exec s id (.update v true) = (.ok, cbs, s') → (exec s' id .value).1 = .val v) ∧
     (exec s id .delete = (.ok, cbs, s') → (exec s' id .value).1 = .err .notFound ∧ (exec s' id .exists_).1 = .bool false) := by
-  sorry
+  have _ := hd
+  refine ⟨?_, ?_, ?_⟩ <;> intro h <;> simp only [exec] at h <;> (repeat' split at h) <;>
+    simp only [Prod.mk.injEq, reduceCtorEq, false_and, true_and] at h <;>
+    obtain ⟨_, rfl⟩ := h <;> simp [exec, vget_vset, vget_vdel]
 
 end GoRes.Props.C11
